@@ -4,6 +4,7 @@ import (
 	"fmt"
 	"math"
 	"math/bits"
+	"sort"
 	"strconv"
 	"strings"
 
@@ -13830,7 +13831,16 @@ func (l *Lowerer) registerUnusedLetBindings() {
 	if l.currentFunc == nil || l.currentFunc.NamedExpressions == nil {
 		return
 	}
-	for name, handle := range l.locals {
+	// Several unused lets can name the same expression (let b = a; let c = a;):
+	// visit them in a fixed order so that the surviving name does not depend on
+	// map iteration.
+	names := make([]string, 0, len(l.locals))
+	for name := range l.locals {
+		names = append(names, name)
+	}
+	sort.Strings(names)
+	for _, name := range names {
+		handle := l.locals[name]
 		// Skip local const declarations — they are inlined, not named expressions.
 		// Matches Rust naga where local const is Declared::Const, not in named_expressions.
 		if l.localConsts[name] {
